@@ -34,7 +34,7 @@ func runPoolWorlds(c *Ctx, focus string, replay []string) (lines, outs []string)
 			}
 		}
 	} else {
-		n := c.Scale(32, 900)
+		n := c.Scale(120, 900)
 		for i := 0; i < n; i++ {
 			seeds = append(seeds, c.R.U64())
 		}
